@@ -527,8 +527,8 @@ func c17mCheck(b, l, r interface{}, repr [3]bool) (string, string) {
 }
 
 // c17mOrderHazard reports whether the triple has the shape of finding c17mFOrder somewhere: an
-// object with two members k1, k2 where k1 is a proper prefix of k2, k1 is an object in all three
-// documents that a side edits inside, and k2 is changed by both sides.
+// object with two members k1, k2 where the name k1 is a proper prefix of the name k2, a side
+// changes k1 and both sides change k2.
 func c17mOrderHazard(b, l, r interface{}) bool {
 	bo, bIs := b.(map[string]interface{})
 	lo, lIs := l.(map[string]interface{})
@@ -552,7 +552,8 @@ func c17mOrderHazard(b, l, r interface{}) bool {
 			continue
 		}
 		for k2 := range keys {
-			if k2 != k1 && strings.HasPrefix(k2, k1) && (changed(bo, lo, k2) || changed(bo, ro, k2)) {
+			// the two diff streams get out of step only when both carry a diff for k2
+			if k2 != k1 && strings.HasPrefix(k2, k1) && changed(bo, lo, k2) && changed(bo, ro, k2) {
 				return true
 			}
 		}
